@@ -485,12 +485,11 @@ var twin = gen.Twin{New: func() func() bool {
 const jsTail = "}`;x=1//"
 
 func lexAll(t *rapid.T, src string) []tok {
-	in, whole := gen.Embedded([]byte(src), jsTail)
-	input := parse.NewInputBytes(in)
+	input, how, check := gen.Supply([]byte(src), jsTail)
 	defer func() {
 		input.Restore()
-		if ok, rest := gen.CheckEmbedded(in, whole, jsTail, true); !ok || string(in) != src {
-			t.Fatalf("lexing %q changed the caller's buffer: %q + %q", src, in, rest)
+		if ok, rest := check(true); !ok {
+			t.Fatalf("lexing %q (%s) changed the caller's buffer: %q", src, how, rest)
 		}
 	}()
 	l := js.NewLexer(input)
